@@ -34,7 +34,7 @@ def configs(tier, seed):
     fm = _fmts()
     triples = [(op, x, y) for x in fm for y in fm for op in ('add', 'sub', 'mul')
                if P07.growth(op, x, y)[1] > 53 and P07.growth(op, x, y)[1] <= 256 and not (op == 'sub' and not x[0] and not y[0])]
-    sel = C.pick(triples, 700 if tier == 'quick' else len(triples), rng)
+    sel = C.pick(triples, 700 if tier == 'quick' else 9000, rng)
     for op, x, y in sel:
         out.append(dict(part='arith', op=op, x=list(x), y=list(y), route=rng.choice(('operator', 'function')), shape=[]))
     # unsigned - unsigned above 53 bits: the documented exception must still be the exact difference when it is non-negative
@@ -43,7 +43,7 @@ def configs(tier, seed):
         out.append(dict(part='arith', op='sub', x=list(x), y=list(y), route='operator', shape=[]))
     # big-integer stores
     stores = [(s, n, f) for s in (True, False) for n in range(1, 53) for f in range(0, n + 4)]
-    for (s, n, f) in C.pick(stores, 150 if tier == 'quick' else 1500, rng):
+    for (s, n, f) in C.pick(stores, 150 if tier == 'quick' else 600, rng):
         for o in SP.OVERFLOWS:
             r = rng.choice(SP.ROUNDINGS)
             for e in (ENTRIES if tier == 'thorough' else (rng.choice(ENTRIES),)):
